@@ -118,11 +118,11 @@ theorem takeWhile_rev_noAt (d : Bytes) (hd : AT ∉ d) (l : Bytes) :
   have : ∀ (x y : Bytes), AT ∉ x → (x ++ AT :: y).takeWhile (· != AT) = x := by
     intro x y hx
     induction x with
-    | nil => simp [List.takeWhile_cons]
+    | nil => simp
     | cons c r ih =>
       have hc : c ≠ AT := fun e => hx (by simp [e])
       have hr : AT ∉ r := fun e => hx (by simp [e])
-      simp [List.takeWhile_cons, hc, ih hr]
+      simp [hc, ih hr]
   rw [this d.reverse l.reverse (by simpa using hd), List.reverse_reverse]
 
 theorem hostOfB_eq (a : Bytes) : hostOfB a = domainOf a := by
